@@ -3,6 +3,8 @@
 package wdsim
 
 import (
+	"crypto/md5"
+	"encoding/base64"
 	"fmt"
 	"strings"
 
@@ -47,6 +49,10 @@ func (g *gen) condHeaders(st *Step, targetIsDir bool) map[string]string {
 			v, hint = fmt.Sprintf("\"vsim-unknown-%d\"", g.r.Intn(100)), "differs"
 			if g.r.Chance(0.15) {
 				v = rt.Pick(g.r, []string{`"*"`, `"**"`, `"W/"`, `" "`, `"0"`}) // well-formed tags that look like something else
+			} else if g.r.Chance(0.25) && !targetIsDir {
+				// well-formed tags that resemble the current one: what proxies, other
+				// representations and sloppy clients make of it
+				v = rt.Pick(g.r, []string{`"${tagin:current}-gzip"`, `"${tagin:current}-br"`, `"${tagin:current};gzip"`, `"${tagin:current} "`, `" ${tagin:current}"`, `"${tagin:current}0"`, `"x${tagin:current}"`, `"${tagin:current}--gzip"`, `"${tagin:current}:1"`})
 			}
 		case 5:
 			v = rt.Pick(g.r, []string{"abc", "\"abc", "abc\"", "W/\"abc\"", "'abc'", "d234ccf525242401", "**", "\"", "W/*"})
@@ -145,9 +151,37 @@ func GenC02Refusals(seed uint64, tier string) *Plan {
 				break
 			}
 		}
+		g.entityHeaders(st)
 		g.commit(st, hints)
 	}
 	return g.plan
+}
+
+// entityHeaders adds headers about the entity that a client may send along
+// with a PUT and that a server is free to ignore or to verify - before it
+// stores anything (used where no model judges the status: C02, C17).
+func (g *gen) entityHeaders(st *Step) {
+	if st.Method != "PUT" || !g.r.Chance(0.12) {
+		return
+	}
+	sum := md5.Sum(st.Body)
+	right := base64.StdEncoding.EncodeToString(sum[:])
+	switch g.r.Intn(6) {
+	case 0:
+		st.set("Content-MD5", right)
+	case 1:
+		other := md5.Sum(append([]byte("x"), st.Body...))
+		st.set("Content-MD5", base64.StdEncoding.EncodeToString(other[:]))
+	case 2:
+		st.set("Content-MD5", rt.Pick(g.r, []string{"not base64!", "", "AAAA", right[:len(right)-2]}))
+	case 3:
+		st.set("Digest", "md5="+right)
+		st.set("Content-Language", "en")
+	case 4:
+		st.set("Content-Encoding", rt.Pick(g.r, []string{"identity", "gzip"}))
+	default:
+		st.set("X-Expected-Entity-Length", fmt.Sprint(len(st.Body)+g.r.Intn(2)))
+	}
 }
 
 func (g *gen) bodyFault(n int) Fault {
@@ -199,6 +233,7 @@ func GenC02Broken(seed uint64, tier string) *Plan {
 			if g.r.Chance(0.9) {
 				st.Faults = []Fault{g.bodyFault(len(st.Body))}
 			}
+			g.entityHeaders(st)
 			g.commit(st, nil)
 			continue
 		}
@@ -275,6 +310,7 @@ func GenC02Disk(seed uint64, tier string) *Plan {
 		if g.r.Chance(0.6) {
 			st.Faults = append(st.Faults, g.diskFault(10))
 		}
+		g.entityHeaders(st)
 		g.commit(st, nil)
 	}
 	return g.plan
@@ -457,6 +493,12 @@ func GenC17Disk(seed uint64, tier string) *Plan {
 	n := g.stepCount()
 	for i := 0; i < n; i++ {
 		st := g.genRequest()
+		var hints map[string]string
+		if g.r.Chance(0.2) {
+			// conditional requests take other paths through the same file-system calls
+			st, hints = g.condRequest()
+		}
+		_ = hints
 		if g.r.Chance(0.7) {
 			st.Faults = append(st.Faults, g.diskFault(8))
 			if g.r.Chance(0.2) {
